@@ -48,10 +48,55 @@ static inline void raw_put(void* base, size_t i, int cw, uint64_t v) {
   }
 }
 
+static bool format_matches(const Image& im, const Canvas& c);
+static uint64_t n_loaded_ppm = 0, n_loaded_pam = 0, n_raw_ctor = 0, n_load_fallback = 0;
+
+static bool bytes_match(const Image& im, const Canvas& c);
+
+// Canvases whose maximum is the full-width mask come from the sizing constructor; any other maximum can only
+// be had by loading a PPM (P6) / PAM (P7) with that MAXVAL or through the raw-data constructor with an
+// explicit max_value.  Sample bytes are written in host order (what phosg's loader/saver use).
 static Image make_image(const Canvas& c) {
-  Image im((size_t)c.w, (size_t)c.h, c.alpha, (uint8_t)c.cw);  // exact-size malloc inside: ASan red zones both sides
-  void* p = im.get_data();
-  for (size_t i = 0; i < c.v.size(); i++) raw_put(p, i, c.cw, c.v[i]);
+  vf::poison_errno();
+  if (!c.odd_max()) {
+    Image im((size_t)c.w, (size_t)c.h, c.alpha, (uint8_t)c.cw);  // exact-size malloc inside: ASan red zones both sides
+    void* p = im.get_data();
+    for (size_t i = 0; i < c.v.size(); i++) raw_put(p, i, c.cw, c.v[i]);
+    return im;
+  }
+  size_t nbytes = c.v.size() * (size_t)(c.cw / 8);
+  string raw(nbytes ? nbytes : 1, '\0');
+  for (size_t i = 0; i < c.v.size(); i++) raw_put(&raw[0], i, c.cw, c.v[i]);
+  bool natural = (c.cw == 8) || (c.cw == 16 && c.maxv > 0xFF) || (c.cw == 32 && c.maxv > 0xFFFF) || (c.cw == 64 && c.maxv > 0xFFFFFFFFULL);
+  if (natural && c.w > 0 && c.h > 0 && ((c.w + c.h + (int64_t)(c.maxv & 1)) & 1)) {
+    string file;
+    bool pam = c.alpha || (c.w & 1);
+    if (pam) file = fmt("P7\nWIDTH %" PRId64 "\nHEIGHT %" PRId64 "\nDEPTH %d\nMAXVAL %" PRIu64 "\nTUPLTYPE %s\nENDHDR\n", c.w, c.h, c.nch, c.maxv, c.alpha ? "RGB_ALPHA" : "RGB");
+    else file = fmt("P6 %" PRId64 " %" PRId64 " %" PRIu64 "\n", c.w, c.h, c.maxv);
+    file.append(raw.data(), nbytes);
+    FILE* f = fmemopen(&file[0], file.size(), "rb");
+    if (f) {
+      try {
+        Image im(f);
+        fclose(f);
+        if (format_matches(im, c) && bytes_match(im, c)) {
+          (pam ? n_loaded_pam : n_loaded_ppm)++;
+          return im;
+        }
+      } catch (const std::exception&) {
+        fclose(f);
+      }
+      n_load_fallback++;  // the codecs are C06's business; fall back to the raw constructor
+    }
+  }
+  FILE* f = fmemopen(&raw[0], raw.size(), "rb");
+  if (!f) {
+    fprintf(stderr, "[harness-error] fmemopen failed\n");
+    exit(3);
+  }
+  Image im(f, (ssize_t)c.w, (ssize_t)c.h, c.alpha, (uint8_t)c.cw, c.maxv);
+  fclose(f);
+  n_raw_ctor++;
   return im;
 }
 
@@ -60,8 +105,17 @@ static bool format_matches(const Image& im, const Canvas& c) {
       im.get_channel_width() == c.cw && im.get_data_size() == c.v.size() * (size_t)(c.cw / 8);
 }
 
-static void snapshot(const Image& im, Canvas& c) {
-  c.init((int64_t)im.get_width(), (int64_t)im.get_height(), im.get_has_alpha(), im.get_channel_width());
+static bool bytes_match(const Image& im, const Canvas& c) {
+  const void* p = im.get_data();
+  for (size_t i = 0; i < c.v.size(); i++) if (raw_get(p, i, c.cw) != c.v[i]) return false;
+  return true;
+}
+
+// reads the real buffer; the channel maximum is not observable through the API, so it is taken from `maxv_from`
+// (the model of the same canvas) when the width is still the same
+static void snapshot(const Image& im, Canvas& c, const Canvas* maxv_from = nullptr) {
+  uint64_t mv = (maxv_from && maxv_from->cw == im.get_channel_width()) ? maxv_from->maxv : 0;
+  c.init((int64_t)im.get_width(), (int64_t)im.get_height(), im.get_has_alpha(), im.get_channel_width(), mv);
   const void* p = im.get_data();
   for (size_t i = 0; i < c.v.size(); i++) c.v[i] = raw_get(p, i, c.cw);
 }
@@ -173,6 +227,7 @@ static void run_real(const Op& o, Image& d, const Image& s, const Image* m, Call
 
 // returns "" if no exception, else a class name
 static string run_guarded(const Op& o, Image& d, const Image& s, const Image* m, Calls* calls, string* what) {
+  vf::poison_errno();
   try {
     run_real(o, d, s, m, calls);
   } catch (const std::out_of_range& e) {
@@ -199,9 +254,9 @@ static const int WIDTHS[4] = {8, 16, 32, 64};
 static void gen_pixel(vf::Rng& r, const Canvas& c, const uint64_t pal[4][3], uint64_t o[4]) {
   if (r.chance(1, 2)) {
     const uint64_t* p = pal[r.below(4)];
-    o[0] = p[0] & c.maxv; o[1] = p[1] & c.maxv; o[2] = p[2] & c.maxv;
+    o[0] = p[0] & c.mask; o[1] = p[1] & c.mask; o[2] = p[2] & c.mask;
   } else {
-    for (int k = 0; k < 3; k++) o[k] = (r.chance(1, 4) ? r.interesting() : r.next()) & c.maxv;
+    for (int k = 0; k < 3; k++) o[k] = (r.chance(1, 4) ? r.interesting() : r.next()) & c.mask;
   }
   switch (r.below(8)) {
     case 0: case 1: o[3] = 0; break;
@@ -209,8 +264,26 @@ static void gen_pixel(vf::Rng& r, const Canvas& c, const uint64_t pal[4][3], uin
     case 4: o[3] = c.maxv; break;
     case 5: o[3] = 0x80; break;
     case 6: o[3] = r.chance(1, 2) ? 1 : c.maxv - 1; break;
-    default: o[3] = r.next() & c.maxv; break;
+    default: o[3] = r.next() & c.mask; break;
   }
+  o[3] &= c.mask;
+  // canvases with their own maximum: samples normally stay within it (a few do not: files are not validated)
+  if (c.odd_max() && !r.chance(1, 12))
+    for (int k = 0; k < 4; k++) if (o[k] > c.maxv) o[k] = (k == 3 && r.chance(1, 2)) ? c.maxv : o[k] % (c.maxv + 1);
+}
+
+// a channel maximum different from 2^cw-1 (what a PPM/PAM with that MAXVAL, or the raw constructor, gives)
+static uint64_t odd_max_for(vf::Rng& r, int cw) {
+  static const uint64_t t8[] = {100, 1, 254, 200, 127, 15}, t16[] = {1023, 256, 4095, 65534, 100, 32768}, t32[] = {65536, 1000000, 0xFFFFFFFEULL, 1023, 0x80000000ULL},
+                        t64[] = {0x100000000ULL, 0x8000000000000000ULL, 0xFFFFFFFFFFFFFFFEULL, 1000, 0xFFFFFFFFFFULL};
+  uint64_t m;
+  switch (cw) {
+    case 8: m = r.chance(1, 3) ? 1 + r.below(254) : t8[r.below(6)]; break;
+    case 16: m = r.chance(1, 3) ? 256 + r.below(65279) : t16[r.below(6)]; break;
+    case 32: m = r.chance(1, 3) ? 65536 + r.below(0xFFFF0000ULL - 1) : t32[r.below(5)]; break;
+    default: m = r.chance(1, 3) ? 0x100000000ULL + (r.next() >> 1) : t64[r.below(5)]; break;
+  }
+  return m;
 }
 
 static void standard_palette(vf::Rng& r, uint64_t pal[4][3]) {
@@ -296,7 +369,7 @@ static int clip_class(const Op& o, const Canvas& d, const Canvas& s) {
 static void check_invariance(const Op& o, const Canvas& before, const Canvas& real_small, const Image& simg, const Image* mimg, int P,
     vf::Rng& r, const string& where) {
   Canvas big;
-  big.init(before.w + 2 * P, before.h + 2 * P, before.alpha, before.cw);
+  big.init(before.w + 2 * P, before.h + 2 * P, before.alpha, before.cw, before.maxv);
   uint64_t pal[4][3];
   standard_palette(r, pal);
   // for mask_blit_dst make padding hit the key colour often
@@ -345,10 +418,25 @@ struct Env {
 
 static Canvas g_before, g_real;
 
+static inline void adopt(Canvas& dm, const Canvas& real) {
+  uint64_t mv = dm.maxv;
+  int cw = dm.cw;
+  dm = real;
+  if (dm.cw == cw) dm.maxv = mv;
+}
+
 // hot-path coverage counters (flushed into the class map at the end)
 static uint64_t n_kind[K_NKINDS], n_clip[K_NKINDS][16], n_fmt[K_NKINDS][4][2][2];  // fmt: [width][alpha (folded on flush)][self]
 
+static uint64_t n_oddmax[K_NKINDS][4];
+
 static void flush_counters() {
+  C->count("canvases_loaded_from_P6", n_loaded_ppm);
+  C->count("canvases_loaded_from_P7", n_loaded_pam);
+  C->count("canvases_from_raw_ctor_with_max_value", n_raw_ctor);
+  C->count("canvas_load_fallbacks", n_load_fallback);
+  for (int k = 0; k < K_NKINDS; k++) for (int w = 0; w < 4; w++)
+    if (n_oddmax[k][w]) C->cls(string(kind_names[k]) + ((k == K_INVERT || k == K_BLEND || k == K_BLEND_A || k == K_BLIT) ? fmt(":own-maxval:%d", 8 << w) : string(":own-maxval")), n_oddmax[k][w]);
   for (int k = 0; k < K_NKINDS; k++) {
     if (n_kind[k]) C->count(kind_names[k], n_kind[k]);
     for (int b = 0; b < 16; b++)
@@ -408,7 +496,7 @@ static bool check_op(const Op& o, Env& e, vf::Rng& r, int invariance_P) {
       ok = false;
     }
     snapshot(*e.dimg, g_real);
-    dm = g_real;
+    adopt(dm, g_real);
     C->cls(kname + ":mask-too-small");
     return ok;
   }
@@ -422,7 +510,7 @@ static bool check_op(const Op& o, Env& e, vf::Rng& r, int invariance_P) {
   if (!format_matches(*e.dimg, before)) {
     C->violation(kname + ":format-changed", "canvas dimensions/format changed by a drawing operation", describe());
     snapshot(*e.dimg, g_real);
-    dm = g_real;
+    adopt(dm, g_real);
     return false;
   }
   snapshot(*e.dimg, g_real);
@@ -449,9 +537,10 @@ static bool check_op(const Op& o, Env& e, vf::Rng& r, int invariance_P) {
     const Canvas& s = self ? before : *e.sm;
     if (o.kind <= K_FILL) n_clip[o.kind][clip_class(o, before, s)]++;
     n_fmt[o.kind][before.cw == 8 ? 0 : before.cw == 16 ? 1 : before.cw == 32 ? 2 : 3][before.alpha][self]++;
+    if (before.odd_max()) n_oddmax[o.kind][before.cw == 8 ? 0 : before.cw == 16 ? 1 : before.cw == 32 ? 2 : 3]++;
   }
   if (!ok) {
-    dm = g_real;  // continue from the real state
+    adopt(dm, g_real);  // continue from the real state
     return false;
   }
   // oracle 2
@@ -480,12 +569,12 @@ static void check_line(const Op& o, Canvas& dm, Image& img, uint64_t content_see
   if (!ex.empty()) C->violation("draw_line:threw-" + ex + tag, "draw_line threw " + ex + ": " + what, describe());
   if (!format_matches(img, before)) {
     C->violation("draw_line:format-changed", "format changed", describe());
-    snapshot(img, dm);
+    { Canvas keep_ = dm; snapshot(img, dm, &keep_); }
     return;
   }
   snapshot(img, g_real);
   // was the colour already present? (then "changed" under-approximates "marked")
-  uint64_t col[4] = {o.c[0] & before.maxv, o.c[1] & before.maxv, o.c[2] & before.maxv, o.c[3] & before.maxv};
+  uint64_t col[4] = {o.c[0] & before.mask, o.c[1] & before.mask, o.c[2] & before.mask, o.c[3] & before.mask};
   bool colour_present = false;
   vector<pair<int64_t, int64_t>> changed;
   for (int64_t y = 0; y < before.h; y++)
@@ -548,7 +637,7 @@ static void check_line(const Op& o, Canvas& dm, Image& img, uint64_t content_see
     C->cls(string("draw_line:") + (one_in ? "one-end-outside" : "both-ends-outside") + (changed.empty() ? ":nothing" : ":drawn"));
   }
   C->cls("draw_line:fmt:" + fmt("%d", before.cw));
-  dm = g_real;
+  adopt(dm, g_real);
 }
 
 // ------------------------------------------------------------------------------------------------
@@ -579,8 +668,9 @@ static int64_t gen_extent(vf::Rng& r, int64_t size, bool big_ok) {
 }
 
 static void gen_colour(vf::Rng& r, const Canvas& d, uint64_t c[4], bool eight_bit) {
-  uint64_t lim = eight_bit ? 0xFF : d.maxv;
-  for (int k = 0; k < 3; k++) c[k] = (r.chance(1, 3) ? (r.chance(1, 2) ? lim : 0) : r.next()) & lim;
+  uint64_t lim = eight_bit ? 0xFF : d.mask;
+  if (d.odd_max() && d.maxv < lim && r.chance(3, 4)) lim = d.maxv;  // mostly colours the canvas can represent
+  for (int k = 0; k < 3; k++) c[k] = (r.chance(1, 3) ? (r.chance(1, 2) ? lim : 0) : lim == ~0ULL ? r.next() : r.next() % (lim + 1));
   switch (r.below(6)) {
     case 0: case 1: c[3] = 0xFF; break;
     case 2: c[3] = 0; break;
@@ -610,7 +700,7 @@ static string gen_text(vf::Rng& r, size_t maxlen) {
 
 static void gen_key(vf::Rng& r, const uint64_t pal[4][3], const Canvas& c, uint64_t key[4], bool eight_bit) {
   const uint64_t* p = pal[r.below(4)];
-  uint64_t lim = eight_bit ? 0xFF : c.maxv;
+  uint64_t lim = eight_bit ? 0xFF : c.mask;
   for (int k = 0; k < 3; k++) key[k] = p[k] & lim;
   key[3] = 0;
 }
@@ -637,7 +727,7 @@ static Op gen_op(vf::Rng& r, int kind, const Canvas& d, const Canvas& s, const u
         case 0: o.salpha = 0; break;
         case 1: o.salpha = d.maxv; break;
         case 2: o.salpha = d.maxv / 2 + 1; break;
-        default: o.salpha = r.next() & d.maxv; break;
+        default: o.salpha = d.maxv == ~0ULL ? r.next() : r.next() % (d.maxv + 1); break;
       }
     }
   } else if (kind == K_FILL) {
@@ -723,7 +813,7 @@ static void pixel_case(Canvas& dm, Image& img, int64_t x, int64_t y, vf::Rng& r)
       snapshot(img, g_real);
       if (!format_matches(img, dm) || g_real.v != dm.v) {
         C->violation(string(an[acc]) + ":outside-modified-buffer" + tag, "rejected access modified the pixel buffer", where);
-        dm = g_real;
+        adopt(dm, g_real);
       }
       C->cls(string("pixel:oob:") + an[acc] + ":" + (x < 0 ? "x<0" : x >= dm.w ? "x>=w" : "xin") + ":" + (y < 0 ? "y<0" : y >= dm.h ? "y>=h" : "yin"));
       continue;
@@ -740,7 +830,7 @@ static void pixel_case(Canvas& dm, Image& img, int64_t x, int64_t y, vf::Rng& r)
       snapshot(img, g_real);
       if (g_real.v != dm.v) {
         C->violation(string(an[acc]) + ":wrong-buffer" + tag, "after write_pixel the raw buffer is not 'exactly that pixel set to the (truncated) value'", where + " value=" + col_str(cc));
-        dm = g_real;
+        adopt(dm, g_real);
       }
     } else {
       dm.get(x, y, m);
@@ -785,7 +875,10 @@ static void pixel_suite(vf::Rng& r) {
   uint64_t n = C->qt<uint64_t>(400, 8000) / C->nshards + 1;
   for (uint64_t i = 0; i < n; i++) {
     Canvas dm;
-    dm.init(r.range(1, 64), r.range(1, 64), r.chance(1, 2), WIDTHS[r.below(4)]);
+    {
+      int cw = WIDTHS[r.below(4)];
+      dm.init(r.range(1, 64), r.range(1, 64), r.chance(1, 2), cw, r.chance(1, 3) ? odd_max_for(r, cw) : 0);
+    }
     uint64_t pal[4][3];
     standard_palette(r, pal);
     fill_content(dm, r, pal);
@@ -995,7 +1088,7 @@ static void line_suite(vf::Rng& r) {
     Image img = make_image(dm);
     for (int k = 0; k < 8; k++) {
       Op o = gen_op(r, K_LINE, dm, dm, nullptr, true);
-      for (int j = 0; j < 3; j++) if ((o.c[j] & dm.maxv) == 0) o.c[j] = 1;
+      for (int j = 0; j < 3; j++) if ((o.c[j] & dm.mask) == 0) o.c[j] = 1;
       memset(img.get_data(), 0, img.get_data_size());
       std::fill(dm.v.begin(), dm.v.end(), 0);
       check_line(o, dm, img, 0);
@@ -1159,7 +1252,10 @@ static void identity_suite(vf::Rng& r) {
     uint64_t cseed = r.next();
     vf::Rng cr(cseed);
     Canvas dm;
-    dm.init(cr.range(0, 64), cr.range(0, 64), cr.chance(1, 2), WIDTHS[cr.below(4)]);
+    {
+      int cw = WIDTHS[cr.below(4)];
+      dm.init(cr.range(0, 64), cr.range(0, 64), cr.chance(1, 2), cw, cr.chance(1, 3) ? odd_max_for(cr, cw) : 0);
+    }
     uint64_t pal[4][3];
     standard_palette(cr, pal);
     fill_content(dm, cr, pal);
@@ -1207,6 +1303,7 @@ static void check_format_op(int what, int arg, Canvas& dm, Image& img, uint64_t 
   C->crumb_s(where);
   C->evaluations++;
   string threw;
+  vf::poison_errno();
   try {
     if (what == 0) img.set_channel_width((uint8_t)arg);
     else if (what == 1) img.set_has_alpha(arg != 0);
@@ -1222,9 +1319,9 @@ static void check_format_op(int what, int arg, Canvas& dm, Image& img, uint64_t 
   const char* opname = what <= 1 ? names[what] : "copy";
   if (!threw.empty()) C->violation(string(opname) + ":threw:" + keytail, "threw: " + threw, where);
   compare_exact(opname, keytail, dm, img, where);
-  if (!format_matches(img, dm)) snapshot(img, dm);
-  else if (memcmp_needed_resync(dm, img)) snapshot(img, dm);
-  C->cls(string(opname) + ":" + keytail);
+  if (!format_matches(img, dm)) { Canvas keep_ = dm; snapshot(img, dm, &keep_); }
+  else if (memcmp_needed_resync(dm, img)) { Canvas keep_ = dm; snapshot(img, dm, &keep_); }
+  C->cls(string(opname) + ":" + keytail + (dm.odd_max() ? ":own-maxval" : ""));
 }
 
 // read_pixel on in-canvas pixels must report the buffer content and, without an alpha channel,
@@ -1265,9 +1362,11 @@ static void format_suite(vf::Rng& r) {
     if (!C->mine(idx++)) continue;
     uint64_t cseed = (uint64_t)((w * 10 + h) * 64 + wi * 16 + a * 8 + wj);
     for (int variant = 0; variant < 6; variant++) {
-      vf::Rng cr(cseed);
+      vf::Rng cr(cseed * 8 + (uint64_t)variant);
       Canvas dm;
-      dm.init(w, h, a, WIDTHS[wi]);
+      // "conversion" to the same width is a no-op: that slot exercises canvases that carry their own MAXVAL
+      // (loaded P6/P7 or raw constructor); every max-dependent follow-up below must then use that maximum
+      dm.init(w, h, a, WIDTHS[wi], wj == wi ? odd_max_for(cr, WIDTHS[wi]) : 0);
       uint64_t pal[4][3];
       standard_palette(cr, pal);
       fill_content(dm, cr, pal);
@@ -1294,7 +1393,7 @@ static void format_suite(vf::Rng& r) {
           // opaque / transparent / translucent source of the same (converted) width blended onto it, and the
           // converted canvas used as a no-alpha source whose implied alpha decides the blit rule
           Canvas sm;
-          sm.init(w, h, true, dm.cw);
+          sm.init(w, h, true, dm.cw, dm.maxv);
           fill_content(sm, cr, pal);
           for (int64_t i = 0; i < w * h; i++) if (i % 3 != 2) sm.v[(size_t)(i * 4 + 3)] = (i % 3) ? sm.maxv : 0;
           Image simg = make_image(sm);
@@ -1306,7 +1405,7 @@ static void format_suite(vf::Rng& r) {
           check_op(o, e2, r, 0);
           probe_reads(dm, img, r, 3, cseed, "dst");
           Canvas tm;
-          tm.init(w, h, true, dm.cw);
+          tm.init(w, h, true, dm.cw, dm.maxv);
           Image timg = make_image(tm);
           Env e3{&tm, &timg, &dm, &img};
           e3.content_seed = cseed;
@@ -1338,8 +1437,12 @@ static void sequence_suite(vf::Rng& r) {
     bool mixed = cr.chance(1, 8);
     int64_t lim = cr.chance(1, 12) ? 64 : cr.chance(1, 3) ? 20 : 9;
     Canvas dm, sms[2], mm;
-    dm.init(cr.range(0, lim), cr.range(0, lim), cr.chance(1, 2), WIDTHS[wi]);
-    for (auto& s : sms) s.init(cr.range(0, lim), cr.range(0, lim), cr.chance(1, 2), mixed ? WIDTHS[cr.below(4)] : WIDTHS[wi]);
+    uint64_t omax = cr.chance(1, 4) ? odd_max_for(cr, WIDTHS[wi]) : 0;  // canvases with their own MAXVAL
+    dm.init(cr.range(0, lim), cr.range(0, lim), cr.chance(1, 2), WIDTHS[wi], omax);
+    for (auto& s : sms) {
+      int scw = mixed ? WIDTHS[cr.below(4)] : WIDTHS[wi];
+      s.init(cr.range(0, lim), cr.range(0, lim), cr.chance(1, 2), scw, (scw == WIDTHS[wi] && !cr.chance(1, 4)) ? omax : (cr.chance(1, 8) ? odd_max_for(cr, scw) : 0));
+    }
     fill_content(dm, cr, pal);
     for (auto& s : sms) fill_content(s, cr, pal);
     Image img = make_image(dm);
@@ -1351,13 +1454,14 @@ static void sequence_suite(vf::Rng& r) {
       if (fk < 16) {
         if (fk < 5) {
           int nw = WIDTHS[r.below(4)];
+          if (dm.odd_max()) nw = dm.cw;  // converting a canvas that has its own MAXVAL to another width is not demanded
           check_format_op(0, nw, dm, img, cseed, "dst");
-          if (r.chance(2, 3)) for (int j = 0; j < 2; j++) check_format_op(0, nw, sms[j], simgs[j], cseed, "src");
+          if (r.chance(2, 3)) for (int j = 0; j < 2; j++) check_format_op(0, sms[j].odd_max() ? sms[j].cw : nw, sms[j], simgs[j], cseed, "src");
         } else if (fk < 8) {
           check_format_op(1, (int)r.below(2), dm, img, cseed, "dst");
         } else if (fk < 10) {
           int j = (int)r.below(2);
-          if (r.chance(1, 2)) check_format_op(0, WIDTHS[r.below(4)], sms[j], simgs[j], cseed, "src");
+          if (r.chance(1, 2)) check_format_op(0, sms[j].odd_max() ? sms[j].cw : WIDTHS[r.below(4)], sms[j], simgs[j], cseed, "src");
           else check_format_op(1, (int)r.below(2), sms[j], simgs[j], cseed, "src");
         } else if (fk < 13) {
           check_format_op(2 + (int)r.below(2), 0, dm, img, cseed, "dst");
